@@ -177,6 +177,8 @@ def gen_roots(tier, seed):
             for f in im:
                 if sum(1 for g in F if (g["q"], g["a"], g["b"]) == (f["q"], f["a"], -f["b"])) != sum(1 for g in F if (g["q"], g["a"], g["b"]) == (f["q"], f["a"], f["b"])):
                     return None
+        if max(sum(1 for g in F if (g["a"] * f["q"], g["b"] * f["q"]) == (f["a"] * g["q"], f["b"] * g["q"])) for f in F) > 3:
+            return None       # multiplicities up to 3 (beyond, deflation leaves only a few digits in every root)
         lead = [r.choice([-3, -2, -1, 1, 2, 3, 5]), 0 if real else r.randint(-2, 2)]
         # the expanded coefficients must stay within the spec's integers
         P = [complex(lead[0], lead[1])]
@@ -269,7 +271,7 @@ def check_diff(rep, c, w, o, worst):
                     trunc = h[j] * w["curv"][i][j] if order == 1 else 0.0
                     want = float(J[i][j]) + trunc
                     # rounding of the differences: about eps |f| / h each; the cleaned-up step differs from hEst by at most ~eps|x|/h relatively
-                    allow = 16 * eps * (fscale[i] + abs(w["curv"][i][j]) * (abs(x[j]) + h[j]) * h[j] * 4) / h[j] + abs(trunc) * 1e-5
+                    allow = 16 * eps * (fscale[i] + abs(w["curv"][i][j]) * (abs(x[j]) + h[j]) * h[j] * 4) / h[j] + abs(trunc) * 1e-5 + 8 * eps * abs(want)      # (+ the rounding of the quotient itself)
                     d = abs(M[i][j] - want) if M[i][j] == M[i][j] else float("inf")
                     worst[tag] = max(worst.get(tag, 0.0), d / allow)
                     if not d <= allow:
@@ -325,6 +327,7 @@ def check_roots(rep, c, o, worst):
         #   |dz| ~ (K eps sum|c_k||z|^k m! / |P^(m)(z)|)^(1/m)
         left = list(roots)
         bad = None
+        mmax = max(exact.count(z) for z in exact)
         for z in sorted(set(exact), key=lambda z: -exact.count(z)):
             m = exact.count(z)
             scale = sum(abs(cc) * abs(z) ** k for k, cc in enumerate(asc))
@@ -337,7 +340,8 @@ def check_roots(rep, c, o, worst):
                 # smaller than the other one, which is what the stable form of the formula is for)
                 tol = (1e3 * eps * scale * math.factorial(m) / pm) ** (1.0 / m) + 1e3 * eps * abs(z) + 1e-300
             else:
-                eff = max(2e4 * n * eps, (1e-5 if m <= 2 else 1e-3) if prec == "double" else 0.0)
+                # (deflation carries the error of a multiple root into the roots found after it: the polynomial's highest multiplicity counts)
+                eff = max((2e4 if prec == "double" else 2e5) * n * eps, (1e-5 if mmax <= 2 else 1e-3) if prec == "double" else 0.0)
                 tol = (eff * scale * math.factorial(m) / pm) ** (1.0 / m) + 1e3 * eps * (1 + abs(z))
             for _ in range(m):
                 j = min(range(len(left)), key=lambda j: abs(left[j] - z))
